@@ -202,6 +202,14 @@ def make_key(kind, k):
         return int(str(int_of_ord(k)))          # a fresh int object every time
     if kind == "str":
         return "".join(["k", "%07d" % k])       # a fresh, non-interned str object
+    # non-ASCII str keys: CPython stores them with 2 or 4 bytes per character (PyUnicode_KIND);
+    # the digits keep every encoding order-preserving
+    if kind == "ustr":
+        return "".join(["\u8a9e", "%07d" % k])                      # UCS-2
+    if kind == "wstr":
+        return "".join(["\U0001F600", "%07d" % k])                  # UCS-4
+    if kind == "mstr":
+        return "".join(["k", "%07d" % k, ["", "\u00e9", "\u8a9e", "\U0001F600"][k % 4]])   # kinds vary between keys
     if kind == "isub":
         return RInt(10 ** 9 - 7 * k)            # larger ordinal = smaller int = greater key
     if kind == "ssub":
